@@ -29,11 +29,11 @@ META = {
         "symmetries.calc_phase_permutation",
     ],
     "floors": {
-        "quick": {"evaluations": 4000, "distinct_nontrivial": 800, "tables": {"op/tensordot": 1500, "op/transpose": 500, "op/matmul": 150, "op/trace": 100, "op/einsum": 150, "parity/odd-involved": 500, "feature/multi-label-operand": 300, "feature/nested-conjugate-labels": 40, "feature/sector-with->=6-odd-contracted": 300}},
+        "quick": {"evaluations": 4000, "distinct_nontrivial": 800, "tables": {"op/tensordot": 1500, "op/transpose": 500, "op/matmul": 150, "op/trace": 100, "op/einsum": 150, "parity/odd-involved": 500, "feature/multi-label-operand": 300, "feature/nested-conjugate-labels": 40, "feature/sector-with->=6-odd-contracted": 300, "feature/sectors>2048": 30}},
         "thorough": {"evaluations": 200000, "distinct_nontrivial": 40000, "tables": {"op/tensordot": 80000, "op/transpose": 20000}},
     },
     "exhaustive": {"quick": False, "thorough": False},
-    "wall": {"quick": 100, "thorough": 1700},
+    "wall": {"quick": 180, "thorough": 1700},
 }
 
 
@@ -220,6 +220,35 @@ def case_many_legs(ctx, rng):
     if nodd >= 6:
         ctx.count("feature", "sector-with->=6-odd-contracted")
     check_contract(ctx, a, b, axa, axb, rng.choice(["fused", "blockwise", "auto", "default"]), "many-legs")
+
+
+def case_many_sectors(ctx, rng):
+    """Operands with thousands of stored sectors (4-5 legs of 7-9 size-one charges): beyond any
+    sector-count threshold a shortcut might use."""
+    sr = ctx.sr
+    sym = rng.choice(["U1", "U1", "U1U1", "Z4"])
+    nleg = 5 if sym != "Z4" else 7
+    if sym == "U1":
+        mk = lambda: sr.BlockIndex({c: 1 for c in range(-4, rng.randint(4, 5) + 1)}, dual=rng.random() < 0.5)
+    elif sym == "U1U1":
+        mk = lambda: sr.BlockIndex({(p, q): 1 for p in range(-1, 2) for q in range(-1, 2)}, dual=rng.random() < 0.5)
+    else:
+        mk = lambda: sr.BlockIndex({c: 1 for c in range(4)}, dual=rng.random() < 0.5)
+    ia = [mk() for _ in range(nleg)]
+    ncon = rng.randint(2, 3)
+    axa = rng.sample(range(nleg), ncon)
+    ib = [gen.conj_index(sr, ia[i]) for i in axa] + [gen.rand_index(sr, rng, sym, maxc=2, maxd=1) for _ in range(rng.randint(0, 1))]
+    order = rng.sample(range(len(ib)), len(ib))
+    ib2 = [ib[k] for k in order]
+    axb = [order.index(k) for k in range(ncon)]
+    vals = gen.Values(rng, "int", "float64")
+    kind = "generic_str" if sym == "Z4" else "static"
+    a = gen.make_array(sr, rng, sym, ia, fermionic=True, values=vals, kind=kind, sparsity=0.0, nphase=rng.choice([0, 1]), label=5, exotic=False)
+    b = gen.make_array(sr, rng, sym, ib2, fermionic=True, values=vals, kind=kind, sparsity=0.0, nphase=0, label=9, exotic=False)
+    ctx.count("feature", "sectors>2048" if max(len(a.blocks), len(b.blocks)) > 2048 else "sectors<=2048")
+    if rng.random() < 0.5:
+        a, b, axa, axb = b, a, axb, axa
+    check_contract(ctx, a, b, axa, axb, rng.choice(["fused", "blockwise", "auto", "default"]), "many-sectors")
 
 
 def case_matmul(ctx, rng):
@@ -471,6 +500,8 @@ def run(ctx):
         ctx.run_case(case_random, ctx, rng)
     for _, rng in ctx.cases("many-legs", ctx.budget(2500, 50000)):
         ctx.run_case(case_many_legs, ctx, rng)
+    for _, rng in ctx.cases("many-sectors", ctx.budget(48, 800)):
+        ctx.run_case(case_many_sectors, ctx, rng)
     for _, rng in ctx.cases("matmul", ctx.budget(20000, 300000)):
         ctx.run_case(case_matmul, ctx, rng)
     for _, rng in ctx.cases("trace", ctx.budget(15000, 200000)):
